@@ -254,6 +254,11 @@ def run_recipe(ctx, recipe, make_retort=None, label="plain"):
                           {**info, "adaptix_consults": alog.consults, "reference_consults": rlog.consults})
         for v in RM.drain():
             ctx.violation(f"router:{v['kind']}", f"recipe {recipe} request {tp}: route {v['request']} returned handler #{v['got']}, linear first match is #{v['expected']}", {**info, **v})
+    _forget_routers()      # every retort of this recipe is finished
+
+
+def _forget_routers():
+    RM.forget()
 
 
 def _key(recipe, what):
